@@ -140,18 +140,23 @@ def run(spec, tier, seed, replay_path=None):
     ms = 1500 if thorough else 350
     rounds = 3 if thorough else 1
     binp, err = C.build_harness(spec.harness, race=True)
+    # second binary: same clients + delay injection through the repository's own scheduling-point hooks (-tags verif)
+    binh, errh = C.build_harness(spec.harness, tags="verif", race=True)
     runs = 0
     summaries = []
-    if binp is None:
-        broken.append({"layer": "L3", "what": "race harness does not build against the working tree", "detail": err[-2000:]})
+    if binp is None or binh is None:
+        broken.append({"layer": "L3", "what": "race harness does not build against the working tree", "detail": (err or errh)[-2000:]})
     else:
         for rnd in range(rounds):
-            for p in procs:
+            for p in procs + [-q for q in (procs if thorough else procs[-1:])]:
                 env = dict(C.GOENV, GORACE="log_path=%s halt_on_error=0" % os.path.join(rundir, "race"))
+                binx = binp
+                if p < 0:  # hooked run
+                    binx, p = binh, -p
                 try:
-                    r = C.sh([binp, "-ms", str(ms), "-procs", str(p), "-seed", str(seed * 100 + rnd * 10 + p)], env=env, timeout=900, cwd=rundir)
+                    r = C.sh([binx, "-ms", str(ms), "-procs", str(p), "-seed", str(seed * 100 + rnd * 10 + p)], env=env, timeout=900, cwd=rundir)
                     runs += 1
-                    summaries.append({"procs": p, "out": (r.stdout or "").strip().split("\n")})
+                    summaries.append({"procs": p, "hooked": binx == binh, "out": (r.stdout or "").strip().split("\n")})
                     if r.returncode not in (0, 66):
                         concrete.append({"signature": "stress-crash", "script": "c18 -procs %d" % p, "impl": (r.stderr or "")[-1500:],
                                          "what": "stress client crashed / invariant assertion failed (rc=%d)" % r.returncode})
